@@ -6,6 +6,7 @@ import ast
 from typing import List, Optional
 
 from ..core import Ctx, assigned_names, dotted, names_in, norm, stmts_local, walk_local
+from ..motroles import bind as bind_mot
 from ..paths import enumerate_paths, guards_of
 
 
@@ -207,7 +208,8 @@ def rule_pipeline(ctx: Ctx):
     mot = repo.need_func("helpers.match_on_tokens")
     stops = False
     for n in walk_local(mot):
-        if isinstance(n, ast.If) and "strings_only" in norm(n.test) and "isinstance(token, str)" in norm(n.test) and any(isinstance(s, ast.Break) for s in n.body):
+        if isinstance(n, ast.If) and "strings_only" in norm(n.test) and f"isinstance({bind_mot(mot)['token']}, str)" in norm(n.test) \
+                and any(isinstance(s, ast.Break) for s in n.body):
             stops = True
     ctx.ob("R-C03-6", "helpers.match_on_tokens/strings_only-breaks", stops, "`strings_only and not isinstance(token, str)` ends the scan", node=mot, mod=hm)
     # where the scanned end becomes span_end
